@@ -68,6 +68,102 @@ def _recorded(body: list[ast.stmt]) -> Optional[ast.AST]:
     return None
 
 
+def _layout_starts(ctx: Ctx, r, wd) -> None:
+    """Where declarations start, by abstract interpretation over residues mod 4.
+
+    The address counter is c = 4*q + k with q symbolic and k = 0..3 concrete (four runs).  (1) The code in front of
+    the declaration loop must turn START = memory.get_address_range().start into START rounded up to a multiple
+    of 4.  (2) On every path through one iteration of the loop that records a variable, the recorded address must
+    be the counter at the start of the iteration rounded up to a multiple of 4 -- whatever the previous declaration
+    left behind.  How the rounding is written (`if c % 4: c += 4 - c % 4`, `(c + 3) & ~3`, a helper) is irrelevant."""
+    from ..absrun import AbsRun
+    from ..bitslice import Form, Inconclusive
+    from ..pathsym import iteration
+    from ..paths import function_paths
+    m = ctx.model
+    s0 = wd.params[0]
+    loop = next((n for n in wd.node.body if isinstance(n, ast.For) and ast.unparse(n.iter) == f"{s0}.data"), None)
+    if loop is None:
+        raise AnalysisError("anchor vanished: `for ... in self.data` in _write_data")
+    START = f"{s0}.state.memory.get_address_range().start"
+    # the counter: the local that is recorded as a variable's address
+    recs = []
+    for n in ast.walk(loop):
+        tup = None
+        if isinstance(n, ast.Assign) and ast.unparse(n.targets[0]).startswith(f"{s0}.variables[") and isinstance(n.value, ast.Tuple):
+            tup = n.value
+        if isinstance(n, ast.Call) and ast.unparse(n.func) == f"{s0}.variables.update" and n.args and isinstance(n.args[0], ast.Dict) \
+                and n.args[0].values and isinstance(n.args[0].values[0], ast.Tuple):
+            tup = n.args[0].values[0]
+        if tup is not None and len(tup.elts) == 2:
+            recs.append((n, tup))
+    if len(recs) < 5:
+        raise AnalysisError(f"R05.types: only {len(recs)} variable recordings found in _write_data (byte, half, word, string, zero expected)")
+    counters = {ast.unparse(t.elts[0]) for _, t in recs}
+    if len(counters) != 1 or not next(iter(counters)).isidentifier():
+        r.check(False, "start|counter", wd.loc(recs[0][0]), f"variables are recorded at {sorted(counters)}: not one running address counter")
+        return
+    cn = next(iter(counters))
+
+    def rounded(k: int, sym: str) -> Form:
+        return Form.var(sym).scale(4) + Form.k(4 if k else 0)
+
+    # (1) before the loop
+    pre = wd.node.body[:wd.node.body.index(loop)]
+    for k in range(4):
+        run = AbsRun(m, wd, {START: Form.var("q").scale(4) + Form.k(k)}, {})
+        run.lenient = True
+        try:
+            run.block(pre)
+            got = run.env.get(cn)
+        except Inconclusive as exc:
+            raise AnalysisError(f"R05.types: the code before the declaration loop is outside the abstract interpreter: {exc}")
+        ok = got is not None and got == rounded(k, "q")
+        r.check(ok, f"start|base%4={k}", wd.loc(), f"with the first data address = 4q+{k}, the layout starts at "
+                f"{got.describe() if got is not None else 'an unknown address'}; it must start at memory.get_address_range().start "
+                f"rounded up to a word boundary ({rounded(k, 'q').describe()})")
+    # (2) every recording path of one iteration
+    rec_ids = {id(n) for n, _ in recs}
+    seen: set = set()
+    n_paths = 0
+    for p in function_paths(wd.node):
+        it = iteration(p, loop)
+        if it is None:
+            continue
+        evs = p.events[it[0] + 1:it[1]]
+        ridx = None
+        for i, e in enumerate(evs):
+            if e.kind == "stmt" and (id(e.node) in rec_ids or any(id(x) in rec_ids for x in ast.walk(e.node))):
+                ridx = i
+                break
+        if ridx is None:
+            continue
+        sig = tuple((id(e.node), e.pol) for e in evs[:ridx + 1])
+        if sig in seen:
+            continue
+        seen.add(sig)
+        n_paths += 1
+        rec_node = next(n for n, _ in recs if id(n) in {id(x) for x in ast.walk(evs[ridx].node)} | {id(evs[ridx].node)})
+        tup = next(t for n, t in recs if n is rec_node)
+        kind = next((ast.unparse(e.node.comparators[0]).strip("'\"") for e in evs[:ridx] if e.kind == "test" and e.pol
+                     and isinstance(e.node, ast.Compare) and ast.unparse(e.node.left).endswith(".type.type")), "?")
+        for k in range(4):
+            run = AbsRun(m, wd, {cn: Form.var("c").scale(4) + Form.k(k)}, {})
+            run.lenient = True
+            try:
+                if not run.run_events(evs[:ridx]):
+                    continue  # this path does not exist for this residue
+                got = run.ev.ev(tup.elts[0])
+            except Inconclusive as exc:
+                raise AnalysisError(f"R05.types: the path to the .{kind} recording is outside the abstract interpreter: {exc}")
+            ok = got == rounded(k, "c")
+            r.check(ok, f"alignment|.{kind}|counter%4={k}", wd.loc(rec_node), f".{kind}: when the previous declaration ends at 4c+{k}, "
+                    f"the variable is recorded at {got.describe()}; every declaration must start on the next 4-byte boundary "
+                    f"({rounded(k, 'c').describe()})", None, [x.label() for x in evs[:ridx + 1]][-8:])
+    if n_paths < 5:
+        raise AnalysisError(f"R05.types: only {n_paths} recording paths through the declaration loop")
+
+
 def run(ctx: Ctx) -> None:
     m = ctx.model
     pc = m.cls("RiscvParser")
@@ -126,16 +222,8 @@ def run(ctx: Ctx) -> None:
     n_name = next((ast.unparse(s.targets[0]) for s in b if isinstance(s, ast.Assign) and isinstance(s.targets[0], ast.Name)), "num_words")
     ok = len(inc) == 1 and linform(inc[0].value) in ({f"{n_name}": 4},)
     r.check(ok, ".zero|reservation", wd.loc(br["zero"]), ".zero n must advance the address counter by 4*n")
-    # alignment before every declaration
-    loop = next((n for n in wd.node.body if isinstance(n, ast.For)), None)
-    ok = False
-    if loop is not None:
-        for n in ast.walk(loop):
-            if isinstance(n, ast.If) and " ".join(ast.unparse(n.test).split()) == "address_counter % 4 != 0" and len(n.body) == 1 \
-                    and isinstance(n.body[0], ast.AugAssign) and " ".join(ast.unparse(n.body[0].value).split()) == "4 - address_counter % 4":
-                # must precede the type branches in the same block
-                ok = n.lineno < br["byte"].lineno
-    r.check(ok, "alignment", wd.loc(), "a declaration no longer starts on the next 4-byte boundary")
+    # alignment before every declaration: residue analysis (see _layout_starts)
+    _layout_starts(ctx, r, wd)
     # (that preloads are uncounted direct writes is C09's clause: R09.once)
     r.floor(12)
 
@@ -162,7 +250,9 @@ def run(ctx: Ctx) -> None:
 
     r = ctx.rule("R05.base", "layout starts at the first data address; data before expansion; declaration order")
     txt = " ".join(ast.unparse(wd.node).split())
-    r.check("address_counter = self.state.memory.get_address_range().start" in txt, "base", wd.loc(), "layout does not start at memory.get_address_range().start")
+    # (that the layout starts at the first data address, rounded up to a word boundary, is decided by the residue
+    #  analysis of R05.types: instance `start`)
+    r.inst("base", "see R05.types start")
     r.check("for line_number, line, line_parsed in self.data" in txt, "order", wd.loc(), "declarations are not laid out in self.data order")
     r.check("if line_parsed.name in self.variables: raise ParserDataDuplicateException" in txt, "duplicates", wd.loc(), "duplicate names are no longer rejected")
     pa = m.method(pc, "parse", own=True)
